@@ -1,8 +1,44 @@
-(* C19 property theorems.  Nothing but statements closed by `exact`, each followed by Print Assumptions. *)
+(* C19 property theorems.  Nothing but statements closed by `exact`, each followed by Print Assumptions.
+   Vocabulary (ProofsBase.v): a stream is the list of characters not yet consumed plus eofbit/failbit;
+   `space`/`digit` = isspace/isdigit of the C locale; head_nondigit l = l is empty or starts with a non-digit;
+   after l = the state a reader leaves when it stopped in front of l (eof when l is empty, good otherwise). *)
 From Coq Require Import ZArith List.
-From C19 Require Import Model ProofsRefute.
+From C19 Require Import Model ProofsBase ProofsInt ProofsRat ProofsElt ProofsRefute.
 Local Open Scope Z_scope.
 
-Theorem C19_poly_write_read_refuted : ~ Poly_write_read_stmt.
-Proof. exact (fun H => match poly_write_read_refuted with ex_intro _ v (ex_intro _ P HP) => HP (H v P) end). Qed.
+(* Integer: for every z, after any white space, followed by any text not starting with a digit:
+   operator>> gives z, leaves exactly that text, eofbit iff nothing follows, never failbit *)
+Theorem C19_integer_roundtrip : Integer_roundtrip_stmt.                 Proof. exact integer_roundtrip. Qed.
+Print Assumptions C19_integer_roundtrip.
+(* Integer(const char * ) of operator std::string is the identity *)
+Theorem C19_integer_string_roundtrip : Integer_string_roundtrip_stmt.   Proof. exact integer_string_roundtrip. Qed.
+Print Assumptions C19_integer_string_roundtrip.
+(* any number of integers written with a white-space separator are read back in order *)
+Theorem C19_integer_sequence : Integer_sequence_stmt.                   Proof. exact integer_sequence. Qed.
+Print Assumptions C19_integer_sequence.
+(* Rational: every canonical n/d (d = 1 printed without denominator), incl. blanks or end of stream after an integer *)
+Theorem C19_rational_roundtrip : Rational_roundtrip_stmt.               Proof. exact rational_roundtrip. Qed.
+Print Assumptions C19_rational_roundtrip.
+Theorem C19_rational_string_roundtrip : Rational_string_roundtrip_stmt. Proof. exact rational_string_roundtrip. Qed.
+Print Assumptions C19_rational_string_roundtrip.
+Theorem C19_rational_sequence : Rational_sequence_stmt.                 Proof. exact rational_sequence. Qed.
+Print Assumptions C19_rational_sequence.
+(* ring / field elements: read = Integer read ; init   and   read = num_get ; init *)
+Theorem C19_element_roundtrip : Element_roundtrip_stmt.                 Proof. exact element_roundtrip. Qed.
+Print Assumptions C19_element_roundtrip.
+Theorem C19_element_word_roundtrip : Element_word_roundtrip_stmt.       Proof. exact element_word_roundtrip. Qed.
+Print Assumptions C19_element_word_roundtrip.
+Theorem C19_modular_roundtrip : Modular_roundtrip_stmt.                 Proof. exact modular_roundtrip. Qed.
+Print Assumptions C19_modular_roundtrip.
+Theorem C19_balanced_roundtrip : Balanced_roundtrip_stmt.               Proof. exact balanced_roundtrip. Qed.
+Print Assumptions C19_balanced_roundtrip.
+(* RecInt decimal display, every K and every value of the type *)
+Theorem C19_ruint_dec_roundtrip : Ruint_dec_roundtrip_stmt.             Proof. exact ruint_dec_roundtrip. Qed.
+Print Assumptions C19_ruint_dec_roundtrip.
+Theorem C19_rint_dec_roundtrip : Rint_dec_roundtrip_stmt.               Proof. exact rint_dec_roundtrip. Qed.
+Print Assumptions C19_rint_dec_roundtrip.
+(* polynomials: the reader's own text format round-trips; what the writer prints does not (known finding) *)
+Theorem C19_poly_degree_format_roundtrip : Poly_degree_format_roundtrip_stmt. Proof. exact poly_degree_format_roundtrip. Qed.
+Print Assumptions C19_poly_degree_format_roundtrip.
+Theorem C19_poly_write_read_refuted : ~ Poly_write_read_stmt.           Proof. exact poly_write_read_refuted'. Qed.
 Print Assumptions C19_poly_write_read_refuted.
